@@ -61,6 +61,13 @@ CHECKS["C01"] = dict(
     note="Bound: 2-call histories (thorough: 3), one fault, one cut, concrete 2-byte values. " + NETNOTE,
     design="3 (C01)", technique=CH)
 
+CHECKS["C10"] = dict(
+    text="Same symbolic driver and ownership monitors as C01, with the fault replaced by KeyboardInterrupt / SystemExit / a "
+         "BaseException subclass raised from inside a symbolic socket call of the history; after each call no later call may "
+         "read another call's bytes and every pool must have zero checked-out connections. All shards exhaust.",
+    note="Bound: 2-call histories, one interruption, 4 stacks x 6 first operations (thorough 6 x 15). " + NETNOTE,
+    design="3 (C10)", technique=CH)
+
 NOT_YET = {}
 
 NA_REASON_PENDING = "check not built yet in this session (planned; see DESIGN.md section 3)"
